@@ -13,6 +13,10 @@ minute m in location loc (`t.In(loc)` and the calendar fields) — a parameter, 
 zone database. Go's map iteration order is unspecified: the model iterates in insertion order, and
 the harness compares spool contents and fired jobs as multisets.
 
+The timer function is modelled both as one step (`tick`) and as its two halves (`tickDrain`: the loop over
+the spool, `tickSched`: c.schedule(next)) so that API calls landing between them — the timer function does
+not hold the lock across the two — are part of the histories the theorems quantify over.
+
 Not modelled: the `continue` taken when the wall-clock minute changes while the spool is being drained
 (two readings of time.Now() in one tick are taken to lie in the same minute), the goroutine per action,
 `last`/`lastErr`, fallback messages, logging.
@@ -35,7 +39,7 @@ structure Sched where
   objs : Nat → JobObj     -- heap
   nobjs : Nat             -- number of objects allocated
   jobs : List Nat         -- c.jobs: pointers of the present jobs (their names are the keys)
-  spool : List Nat        -- c.spool
+  spool : List (Nat × Int)  -- c.spool: (*cronJob, the value of c.next when it was pushed)
   next : Int              -- c.next
 
 /-- createCron at a wall clock whose next whole minute is `next` (after the D8 repair c.next starts there) -/
@@ -57,20 +61,21 @@ def setDisable (objs : Nat → JobObj) (p : Nat) (b : Bool) : Nat → JobObj :=
 def scheduleJob (civil : CivilFn) (s : Sched) (p : Nat) : Sched :=
   if (s.objs p).disable = true then s
   else if runsAt civil (s.objs p) s.next = false then s
-  else { s with spool := s.spool ++ [p] }
+  else { s with spool := s.spool ++ [(p, s.next)] }
 
 /-- c.schedule(next) -/
 def schedule (civil : CivilFn) (s : Sched) (next : Int) : Sched :=
   s.jobs.foldl (scheduleJob civil) { s with next := next }
 
-/-- the loop of the timer function over the spool: skip disabled objects and objects already run in
-    this tick (`fired` set, repair of D17), run the others -/
-def fireLoop (objs : Nat → JobObj) : List Nat → List Nat → List Nat
+/-- the loop of the timer function over the spool, running at wall-clock minute `now`: skip disabled objects,
+    entries pushed for another minute, and objects already run in this tick; run the others -/
+def fireLoop (objs : Nat → JobObj) (now : Int) : List (Nat × Int) → List Nat → List Nat
   | [], fired => fired
-  | p :: rest, fired =>
-    if (objs p).disable = true then fireLoop objs rest fired
-    else if p ∈ fired then fireLoop objs rest fired
-    else fireLoop objs rest (fired ++ [p])
+  | (p, tag) :: rest, fired =>
+    if (objs p).disable = true then fireLoop objs now rest fired
+    else if tag ≠ now then fireLoop objs now rest fired
+    else if p ∈ fired then fireLoop objs now rest fired
+    else fireLoop objs now rest (fired ++ [p])
 
 inductive Op
   | add (name : Nat) (text : List Char) (loc : Nat)   -- AddJob
@@ -78,6 +83,8 @@ inductive Op
   | enable (name : Nat)                               -- EnableJob
   | disable (name : Nat)                              -- DisableJob
   | tick (now : Int)                                  -- the timer function running at wall-clock minute `now`
+  | tickDrain (now : Int)                             -- its first half: drain the spool and run the due jobs
+  | tickSched (now : Int)                             -- its second half: c.schedule(now + 1 minute)
   | sched (next : Int)                                -- verif export: c.schedule(next)
   | drain                                             -- verif export: pop everything
   deriving Repr
@@ -115,9 +122,11 @@ def step (civil : CivilFn) (s : Sched) : Op → Sched × Out
     | none => (s, .errUnknown)
     | some p => ({ s with objs := setDisable s.objs p true }, .ok)
   | .tick now =>
-    -- `actionTime.Equal(spooledFor)`: a spool filled for another minute is dropped, not run
-    let fired := if now = s.next then fireLoop s.objs s.spool [] else []
+    -- entries carry the minute they were pushed for; `it.at.Equal(actionTime)` drops the others
+    let fired := fireLoop s.objs now s.spool []
     (schedule civil { s with spool := [] } (now + 1), .fired fired)
+  | .tickDrain now => ({ s with spool := [] }, .fired (fireLoop s.objs now s.spool []))
+  | .tickSched now => (schedule civil s (now + 1), .ok)
   | .sched next => (schedule civil s next, .ok)
   | .drain => ({ s with spool := [] }, .ok)
 
@@ -152,6 +161,6 @@ def scheduleList (civil : CivilFn) (s : Sched) (sinceNs periodNs : Int) : List (
 
 /-- Info().Spool: names of the spooled objects that are not disabled -/
 def infoSpool (s : Sched) : List Nat :=
-  (s.spool.filter (fun p => (s.objs p).disable = false)).map (fun p => (s.objs p).name)
+  (s.spool.filter (fun e => (s.objs e.1).disable = false)).map (fun e => (s.objs e.1).name)
 
 end ErgoVerif.CronSched
